@@ -1078,7 +1078,10 @@ fn run_case(ctx: &mut Ctx, idx: usize, case: &Case) {
     }
     // F-level
     let f = compare_calls(&imp_res, &model);
-    if let Err(d) = &f {
+    // a failure of the property's own oracle on the real code is the stronger report: it comes
+    // first (unless AGVERIF_F_FIRST asks for the model comparison to be judged first)
+    let f_first = std::env::var("AGVERIF_F_FIRST").is_ok();
+    if let (Err(d), true) = (&f, f_first || viols.is_empty()) {
         ctx.case(case.family, &key, "fdis", serde_json::json!({"what": d, "case": info}));
         return;
     }
